@@ -47,15 +47,15 @@ type c10Case struct {
 }
 
 type c10Log struct {
-	mu                                      sync.Mutex
-	runStart, runEnd                        []int64
-	shutStart, shutEnd                      []int64
-	cleanStart, cleanEnd                    []int64
-	ehStart                                 []int64
-	ehArgNil                                bool
-	ehArg                                   error
-	closeCall, parentCancel                 atomic.Int64
-	errRun, errShut, errClean               error
+	mu                        sync.Mutex
+	runStart, runEnd          []int64
+	shutStart, shutEnd        []int64
+	cleanStart, cleanEnd      []int64
+	ehStart                   []int64
+	ehArgNil                  bool
+	ehArg                     error
+	closeCall, parentCancel   atomic.Int64
+	errRun, errShut, errClean error
 }
 
 func (l *c10Log) add(dst *[]int64) { l.mu.Lock(); *dst = append(*dst, kit.Stamp()); l.mu.Unlock() }
